@@ -30,7 +30,7 @@ CHECKS = {
   engine='hist',
   technique='deterministic simulation with fault injection: seeded histories (<=30) of public read-only/constructive calls over a shared pool (all region classes, coordinates, WCS, images, lists, DS9/CRTF texts, FITS tables, masks, boxes), with calls made to fail part-way by injected faults (bad argument, failing WCS collaborator, OS error, escalated warning, malformed line in a text; line-level aborts as amplifier); every call fingerprint-checks its inputs, is compared with the same call evaluated first in a fork of a pristine process, repeated calls are compared, and a fixed canary battery is compared with its pristine outcome after the history',
   category='exploration',
-  text='Seeded search over call histories in one process. I1: after every call (normal or failing) the bit-exact fingerprints of its arguments, of a seeded third of the rest of the pool and of the run disk are unchanged, and the whole pool is unchanged at the end. I2: the outcome (result fingerprint, exception class/message, library warnings) of a call made after the history equals that of the same call evaluated alone in a fork of a pristine post-import process (half of the calls and always the last five in quick, all in thorough). I3: a call issued twice in a row gives the same outcome. I4: a fixed battery of 173 parse/serialise/convert calls gives after the history the outcome it gave in a pristine process. Violations are minimised by dropping calls/faults and replay exactly in a fresh interpreter. Sampling gives evidence, not proof.',
+  text='Seeded search over call histories in one process. I1: after every call (normal or failing) the bit-exact fingerprints of its arguments, of a seeded third of the rest of the pool and of the run disk are unchanged, and the whole pool is unchanged at the end. I2: the outcome (result fingerprint, exception class/message, library warnings) of a call made after the history equals that of the same call evaluated alone in a fork of a pristine post-import process (half of the calls and always the last five in quick, all in thorough). I3: a call issued twice in a row gives the same outcome. I4: a fixed battery of about 250 parse/serialise/convert/file-round-trip calls gives after the history the outcome it gave in a pristine process. Process-wide state is part of I1: after every call a canary warning must still be treated the way the run configured it (a leaked warnings filter is a violation). Violations are minimised by dropping calls/faults and replay exactly in a fresh interpreter. Sampling gives evidence, not proof.',
   design_ref='DESIGN.md sections 2 (R2, R3), 3.1',
   note='Trusted: fingerprint code (ignores astropy caches by construction), numpy/astropy/matplotlib. The pristine reference shares the PYTHONHASHSEED of the run (R3). Line-level aborts are an amplifier: a violation counts only if it persists with every abort removed. Thread safety and re-entrancy are not explored. plot() and as_mpl_selector() are excluded (mutating the axes / tracking a widget is their job).'),
  'C14': dict(
